@@ -1,5 +1,6 @@
 import RemocModel.Link.CloseInv
 import RemocModel.Link.Relay
+import RemocModel.Link.ForwardReach
 import RemocModel.Props.C01
 set_option linter.unusedSimpArgs false
 
@@ -173,5 +174,120 @@ def relayRun : List RLabel :=
    .relayStart, .down .request, .down .emit, .down .muxRecv, .down .recvAny]
 example : (rrun relayCfg relayCfg (rinit relayCfg relayCfg) relayRun).b.delivered = [[1, 2]] ∧
     (rrun relayCfg relayCfg (rinit relayCfg relayCfg) relayRun).a.completed = [[1, 2]] := by decide
+
+/-! ### across `chmux::forward` at chunk granularity (`RemocModel/Link/Forward.lean`)
+
+`FReachable v ca cb f` quantifies over every schedule of origin, upstream link, forwarding loop, downstream
+link and destination: every sequence of whole sends, chunk streams (any chunking) and port batches at the
+origin, cancels at every await of the origin's sends, every `max_data_size` of the forwarder's receiver (which
+decides whether a message reaches it as `Received::Data` or `Received::Chunks`), closes and drops on either
+link, loss of either connection in any phase. -/
+
+/-- **Chunk-by-chunk forwarding is exact.**  In every reachable state
+(1) the messages whose transmission the forwarder *completed* downstream are, byte for byte and in order, a
+    prefix of the ideal reassembly (`parse none`, C01) of the upstream frames it consumed — whatever their
+    chunking, and whichever chunk streams were cancelled;
+(2) between two messages (`idle`) they are equal to it;
+(3) what the destination obtained is a prefix of the sends completed at the origin;
+(4) at quiescence of both links with the forwarder idle the destination has obtained all of them. -/
+theorem forward_chunks_exact (v : Pairing) (ca cb : Cfg) (f : Fwd) (h : FReachable v ca cb f) :
+    (∃ rest, f.b.completed ++ rest = parse none f.a.consumed) ∧
+    (f.ph = .idle → f.b.completed = parse none f.a.consumed) ∧
+    (∃ rest, f.b.delivered ++ rest = f.a.completed) ∧
+    (f.ph = .idle → f.a.chan = [] → f.a.r.queue = [] → f.b.chan = [] → f.b.r.queue = [] → pendingMsg f.b = [] →
+      f.b.delivered = f.a.completed) := by
+  obtain ⟨⟨_, _, hrel⟩, ha, hb⟩ := fjoint_reachable v ca cb f h
+  have hrc := receiver_delivers_consumed ca f.a ha
+  obtain ⟨k, hk⟩ := rel_pre _ _ _ _ _ hrel
+  have idleFacts : f.ph = .idle → f.a.partialMsg = none ∧ f.b.completed = f.a.delivered := by
+    intro hph; rw [hph] at hrel; exact hrel
+  have pend0 : f.a.partialMsg = none → pendingMsg f.a = [] := by
+    intro hp; unfold pendingMsg; rw [hp]; split <;> simp_all
+  refine ⟨⟨f.a.delivered.drop k ++ pendingMsg f.a, ?_⟩, ?_, ?_, ?_⟩
+  · rw [hrc, hk, ← List.append_assoc, List.take_append_drop]
+  · intro hph
+    obtain ⟨hp, hc⟩ := idleFacts hph
+    rw [hrc, pend0 hp, List.append_nil, hc]
+  · obtain ⟨r1, h1⟩ := delivery_exact cb f.b hb
+    obtain ⟨r2, h2⟩ := delivery_exact ca f.a ha
+    refine ⟨r1 ++ (f.a.delivered.drop k ++ r2), ?_⟩
+    rw [← List.append_assoc, h1, hk, ← List.append_assoc, List.take_append_drop, h2]
+  · intro hph a1 a2 b1 b2 b3
+    obtain ⟨hp, hc⟩ := idleFacts hph
+    rw [delivery_complete cb f.b hb b1 b2 b3, hc, delivery_complete ca f.a ha a1 a2 (pend0 hp)]
+
+/-- **A cancelled or failed upstream chunk stream never yields a completed downstream message** (seeded bug
+(b): treating `Err(Cancelled)` / `Err(ChMux)` of `recv_chunk` as end-of-message and calling `finish()`).  When
+`recv_chunk` reports `Cancelled`, or the upstream connection is lost inside the chunk loop, the forwarder
+drops its `ChunkSender`: nothing is completed, nothing more is emitted for that message, and by
+`forward_chunks_exact` (3) the destination never obtains it. -/
+theorem forward_cancelled_never_completed (v : Pairing) (ca cb : Cfg) (f f' : Fwd) :
+    (fstep v ca cb f .recvChunk = some f' → chunkOut ca f.a = some .cancelled →
+      f'.b.completed = f.b.completed ∧ f'.b.emitted = f.b.emitted ∧ f'.b.s.inMsg = false ∧ f'.ph = .idle) ∧
+    (fstep v ca cb f .upLost = some f' →
+      f'.b.completed = f.b.completed ∧ f'.b.emitted = f.b.emitted ∧ (f.ph = .chunkRecv → f'.b.s.inMsg = false) ∧
+      f'.ph = .done .errRecv) := by
+  constructor
+  · intro hs ho
+    simp only [fstep] at hs
+    split at hs
+    · split at hs
+      · simp only [ho, afterChunk] at hs
+        cases hc : step cb f.b .cancel with
+        | none => simp [hc] at hs
+        | some b' =>
+          simp only [hc, Option.map_some, Option.some.injEq] at hs
+          subst hs
+          obtain ⟨_, him, hcomp, _, hem⟩ := cancel_spec cb f.b b' hc
+          exact ⟨hcomp, hem, him, rfl⟩
+      · simp at hs
+    · simp at hs
+  · intro hs
+    simp only [fstep] at hs
+    split at hs
+    · rename_i hph
+      obtain rfl := Option.some.inj hs
+      exact ⟨rfl, rfl, by simp [hph], rfl⟩
+    · rename_i hph
+      cases hc : step cb f.b .cancel with
+      | none => simp [hc] at hs
+      | some b' =>
+        simp only [hc, Option.map_some, Option.some.injEq] at hs
+        subst hs
+        obtain ⟨_, him, hcomp, _, hem⟩ := cancel_spec cb f.b b' hc
+        exact ⟨hcomp, hem, fun _ => him, rfl⟩
+    · simp at hs
+
+/-- non-vacuity: a chunk stream of 7 bytes (above the forwarder's `max_data_size` 5, so relayed chunk by chunk)
+is cancelled at the origin after both chunks were relayed; the next message is relayed whole; then a 7-byte
+chunk stream is relayed to its end.  Downstream 7 + 0 frames were emitted for the two streams, and exactly the
+completed sends `[9]`, `[1..7]` are completed downstream and obtained by the destination. -/
+def fwdA : Cfg := { chunk := 4, limit := 16, maxData := 5, maxPorts := 8 }
+def fwdB : Cfg := { chunk := 4, limit := 16, maxData := 100, maxPorts := 8, ovr := true }
+def fwdCancelRun : List FLabel :=
+  [.up .startChunks, .up (.chunkSend [1,2,3,4,5,6,7] false), .up .request, .up .emit, .up .emit,
+   .up .muxRecv, .up .muxRecv, .recvAny, .recvAny,
+   .recvChunk, .down .request, .emit, .recvChunk, .down .request, .emit,
+   .up .cancel, .up (.startSend [9]), .up .request, .up .emit, .up .muxRecv,
+   .recvChunk, .recvAny, .down .request, .emit]
+def fwdChunkRun : List FLabel := fwdCancelRun ++
+  [.down .muxRecv, .down .muxRecv, .down .muxRecv, .down .recvAny, .down .recvAny, .down .recvAny, .down .provide,
+   .up .startChunks, .up (.chunkSend [1,2,3,4,5,6,7] false), .up .request, .up .emit, .up .emit,
+   .up (.chunkSend [] true), .up .request, .up .emit,
+   .up .muxRecv, .up .muxRecv, .up .muxRecv, .recvAny, .recvAny,
+   .recvChunk, .down .request, .emit, .recvChunk, .down .request, .emit, .recvChunk, .down .request, .emit,
+   .recvChunk, .down .request, .emit,
+   .down .muxRecv, .down .muxRecv, .down .muxRecv, .down .muxRecv,
+   .down .recvAny, .down .recvAny, .down .recvAny, .down .recvAny]
+
+example : (frun .asCoded fwdA fwdB (finit fwdA fwdB) fwdCancelRun).b.completed = [[9]] ∧
+    (frun .asCoded fwdA fwdB (finit fwdA fwdB) fwdCancelRun).b.emitted.length = 3 ∧
+    Out.cancelled ∈ (frun .asCoded fwdA fwdB (finit fwdA fwdB) fwdCancelRun).a.outs ∧
+    (frun .asCoded fwdA fwdB (finit fwdA fwdB) fwdCancelRun).ph = .idle := by decide
+
+example : (frun .asCoded fwdA fwdB (finit fwdA fwdB) fwdChunkRun).b.completed = [[9], [1,2,3,4,5,6,7]] ∧
+    (frun .asCoded fwdA fwdB (finit fwdA fwdB) fwdChunkRun).a.completed = [[9], [1,2,3,4,5,6,7]] ∧
+    (frun .asCoded fwdA fwdB (finit fwdA fwdB) fwdChunkRun).b.delivered = [[9], [1,2,3,4,5,6,7]] ∧
+    (frun .asCoded fwdA fwdB (finit fwdA fwdB) fwdChunkRun).ph = .idle := by decide
 
 end Remoc.Link
